@@ -24,6 +24,8 @@ RULES = {
     'HOOKS-ONLY': 'the upstreams / downstreams containers are mutated only by the four base hooks of Stream and by the constructor; '
                   'every other edit (connect, disconnect, destroy, nodes that detach themselves) goes through the overridable hooks, so '
                   'that nodes with per-input state resize it and release what they held',
+    'NONE-BOUND': 'an optional constructor argument whose absence is spelled None is used as a slice bound only where it was found to be '
+                  'set: `del history[None:]` deletes everything',
     'EMIT-CURRENT': 'Stream._emit iterates the current downstreams (a snapshot taken at emission time, not a cached list)',
 }
 
@@ -526,6 +528,27 @@ def check_destroy_super(ctx, R, classes):
                 n += 1
                 if (e.x or {}).get('iter_field') == 'upstreams':
                     bad = st.events
+    # destroy() detaches the node from its *upstreams* only: on its symbolic paths every edge edit has `self` at the downstream
+    # end (X._remove_downstream(self) / self._remove_upstream(X)).  A destroy that also lets go of the node's consumers removes
+    # the node as an input of whatever it feeds (a slice that reaches its end would take itself out of a downstream zip)
+    from ..symexpr import SymEval
+    scope_bad, n_scope = None, 0
+    for cls_ in [M.stream] + [c for c in classes if 'destroy' in c.methods and c is not M.stream]:
+        dfn = cls_.methods.get('destroy')
+        if dfn is None:
+            continue
+        try:
+            recs = [r for r in SymEval(M, cls_, no_splice=tuple(PRIMITIVES)).run(dfn) if not r.raised]
+        except AnalysisError:
+            continue
+        for r in recs:
+            for k, e, recv, arg, l, c in _ops_of_record(r):
+                n_scope += 1
+                if (e == 'down' and recv == 'self') or (e == 'up' and arg == 'self'):
+                    scope_bad = scope_bad or '%s: %s' % (ctx.construct(dfn), src(c)[:70])
+    R.ob('DESTROY-SUPER', ctx.construct(base), 'upstream-edges-only', scope_bad is None and n_scope > 0,
+         'destroy() also removes edges to the node\'s consumers (%s): the node is taken out of the inputs of what it feeds'
+         % scope_bad, ctx.where(base, base.node.lineno), None, n_scope)
     R.ob('DESTROY-SUPER', ctx.construct(base), 'iterates-copy', bad is None and n > 0,
          'Stream.destroy mutates self.upstreams while iterating it (every second upstream would stay linked)',
          ctx.where(base, base.node.lineno), fmt_path(bad) if bad else None, n)
@@ -771,3 +794,111 @@ def check_hooks_only(ctx, R, modules=('streamz.core', 'streamz.sinks', 'streamz.
              'and the references they hold are never released' % (fn.qual, ', '.join(sorted({d for _, d in sites}))),
              ctx.where(fn, sites[0][0].lineno), None, len(sites))
     R.count('edge_container_write_sites', n_sites)
+
+
+# ----------------------------------------------------------------------------- NONE-BOUND
+def check_none_bound(ctx, R, classes):
+    """fields stored from a constructor parameter whose default is None (the stored value on the constructor's normal form is
+    that parameter); every use of `self.<field>` as a bound of a slice, in any method of the class, must be guarded: inside an
+    `if` whose test has the conjunct `self.f` / `self.f is not None` (or in the else-arm of `self.f is None` / `not self.f`), or
+    after an early exit `if not self.f: return/continue/raise`."""
+    from ..symexpr import SymEval
+    M = ctx.model
+    for cls in classes:
+        init = cls.methods.get('__init__')
+        if init is None:
+            continue
+        a_ = init.node.args
+        pos = a_.posonlyargs + a_.args
+        none_params = {x.arg for x, d in zip(pos[len(pos) - len(a_.defaults):], a_.defaults) if isinstance(d, ast.Constant) and d.value is None}
+        none_params |= {x.arg for x, d in zip(a_.kwonlyargs, a_.kw_defaults) if isinstance(d, ast.Constant) and d.value is None}
+        optional = set()
+        for n in own_nodes(init.node):
+            if isinstance(n, ast.Assign) and len(n.targets) == 1 and isinstance(n.targets[0], ast.Attribute) and self_field(n.targets[0]):
+                v = n.value
+                if isinstance(v, ast.Name) and v.id in none_params:
+                    optional.add(self_field(n.targets[0]))
+                if isinstance(v, ast.Call) and isinstance(v.func, ast.Attribute) and v.func.attr in ('pop', 'get') and len(v.args) == 2 \
+                        and isinstance(v.args[1], ast.Constant) and v.args[1].value is None:
+                    optional.add(self_field(n.targets[0]))
+        if not optional:
+            continue
+        for mname, fn in cls.methods.items():
+            uses = []
+            for n in own_nodes(fn.node):
+                if isinstance(n, ast.Subscript) and isinstance(n.slice, ast.Slice):
+                    for b in (n.slice.lower, n.slice.upper):
+                        if b is not None:
+                            for x in ast.walk(b):
+                                f = self_field(x) if isinstance(x, ast.Attribute) else None
+                                if f in optional and isinstance(x, ast.Attribute) and isinstance(x.value, ast.Name):
+                                    uses.append((n, f))
+            for node, f in uses:
+                R.ob('NONE-BOUND', ctx.construct(fn), '%s@%d' % (f, [u for u in uses if u[1] == f].index((node, f))),
+                     _guarded_by_field(fn.node, node, f),
+                     'self.%s defaults to None and is used as a slice bound without a test that it is set: with the default, '
+                     '`[None:]` is the whole sequence (here: the whole history is deleted / taken)' % f, ctx.where(fn, node.lineno))
+
+
+def _guarded_by_field(root, node, f):
+    """is `node` executed only when self.<f> was found truthy / not None (structured guards only)"""
+    def test_says(t, want_set):
+        # does the truth (want_set=True) / falsity (False) of test t imply that the field is set
+        if isinstance(t, ast.BoolOp) and isinstance(t.op, ast.And) and want_set:
+            return any(test_says(v, True) for v in t.values)
+        if isinstance(t, ast.BoolOp) and isinstance(t.op, ast.Or) and not want_set:
+            return any(test_says(v, False) for v in t.values)
+        if isinstance(t, ast.UnaryOp) and isinstance(t.op, ast.Not):
+            return test_says(t.operand, not want_set)
+        if isinstance(t, ast.Attribute) and self_field(t) == f:
+            return want_set
+        if isinstance(t, ast.Compare) and len(t.ops) == 1 and isinstance(t.left, ast.Attribute) and self_field(t.left) == f:
+            c = t.comparators[0]
+            if isinstance(c, ast.Constant) and c.value is None:
+                if isinstance(t.ops[0], ast.IsNot):
+                    return want_set
+                if isinstance(t.ops[0], ast.Is):
+                    return not want_set
+            if isinstance(t.ops[0], (ast.Gt, ast.GtE)) and want_set:
+                return True         # self.f > 0: comparable, hence not None
+        return False
+
+    def walk(stmts):
+        # returns True when node is found under a guard, False when found unguarded, None when not in these statements
+        exited = False      # an earlier `if <field unset>: return` in this block
+        for s_ in stmts:
+            inside = any(x is node for x in ast.walk(s_))
+            if isinstance(s_, ast.If):
+                if any(x is node for b in s_.body for x in ast.walk(b)):
+                    if test_says(s_.test, True) or exited:
+                        return True
+                    r = walk(s_.body)
+                    return r if r is not None else False
+                if any(x is node for b in s_.orelse for x in ast.walk(b)):
+                    if test_says(s_.test, False) or exited:
+                        return True
+                    r = walk(s_.orelse)
+                    return r if r is not None else False
+                if any(x is node for x in ast.walk(s_.test)):
+                    return exited
+                # an early exit when the field is unset protects what follows
+                if s_.body and isinstance(s_.body[-1], (ast.Return, ast.Continue, ast.Raise, ast.Break)) and test_says(s_.test, False) \
+                        and not s_.orelse:
+                    exited = True
+                continue
+            if inside:
+                if exited:
+                    return True
+                for fld in ('body', 'orelse', 'finalbody'):
+                    sub = getattr(s_, fld, None)
+                    if isinstance(sub, list) and sub and isinstance(sub[0], ast.stmt) and any(x is node for b in sub for x in ast.walk(b)):
+                        r = walk(sub)
+                        return r if r is not None else False
+                for h in getattr(s_, 'handlers', []) or []:
+                    if any(x is node for b in h.body for x in ast.walk(b)):
+                        r = walk(h.body)
+                        return r if r is not None else False
+                return False
+        return None
+    r = walk(root.body)
+    return bool(r)
